@@ -96,7 +96,7 @@ fn m_record(variant: u8, x: &Enr) -> Option<Enr> {
 // 0x03: Way        active-request idx << 8 | src (0 the request's destination, 1 addr_M, 2 destination IP with another port, 3 IPv4-mapped / 4 IPv4-compatible form of the destination)
 // 0x04: Replay     log idx << 8 | src (0 original, 1 addr_M, 2 IPv4-mapped form of the original)
 // 0x05: Answer     which << 8 | shape 0..8 (M answers V's oldest request to M; which = 1: the oldest request of V's handler itself)
-// 0x08: MRequest   M sends a PING under the session keys it shares with V (once); arg 1: from the IPv4-mapped spelling of its address
+// 0x08: MRequest   M sends a PING under the session keys it shares with V (once); arg 1: from the IPv4-mapped spelling of its address; arg 2: an undecodable request (FINDNODE [300]) instead
 // 0x07: ZeroKey    a TALK request claiming X from X's address, encrypted under the all-zero key
 // 0x06: Late       0: more than a challenge lifetime passes; 1: 0.6 of a lifetime passes (free, at most twice)
 fn code(kind: u32, arg: u32) -> u32 {
@@ -211,6 +211,8 @@ impl Driver for Attack {
                 if s.sessions.iter().any(|x| x.addr.socket_addr == m_addr()) && !w.scratch.iter().any(|(k, _)| k == "m-request") {
                     out.push((Ev::Ext(code(8, 0)), 1));
                     out.push((Ev::Ext(code(8, 1)), 1));
+                    // arg 2: an authentic message that decrypts but is no valid RPC (FINDNODE for distance 300)
+                    out.push((Ev::Ext(code(8, 2)), 1));
                 }
             }
         }
@@ -375,7 +377,8 @@ impl Driver for Attack {
                     w.scratch.push(("m-request".into(), vec![]));
                     let s = w.snap(V).unwrap();
                     if let Some(sess) = s.sessions.iter().find(|x| x.addr.socket_addr == m_addr()).cloned() {
-                        let msg = v::Request { id: v::RequestId(vec![0xEF]), body: v::RequestBody::Ping { enr_seq: 1 } }.encode();
+                        let body = if arg == 2 { v::RequestBody::FindNode { distances: vec![300] } } else { v::RequestBody::Ping { enr_seq: 1 } };
+                        let msg = v::Request { id: v::RequestId(vec![0xEF]), body }.encode();
                         let mut session = v::VSession::from_keys(sess.decryption_key, sess.encryption_key);
                         if let Ok(p) = session.encrypt_message(m_id(), &msg) {
                             // arg 1: the same datagram seen from the IPv4-mapped spelling of M's address
@@ -447,6 +450,23 @@ impl Driver for Attack {
                 w.count("requests_in_genuine_handshakes_delivered");
             } else {
                 w.violate("C14", "every PING is answered: a request enclosed in a valid handshake reaches the application", "request-in-handshake-dropped", format!("V did not hand the PING enclosed in M's valid handshake from {from} to its application after {:?}", ev));
+            }
+        }
+        // C20 / C14: an authentic message of M that is no valid RPC is ignored; it never costs M its
+        // session while V's application holds a request of M (the answer could not be sent any more)
+        if let Ev::Ext(c) = ev {
+            if c >> 24 == 8 && (c & 0xff) == 2 {
+                let had = pre[V].as_ref().map(|p| p.sessions.iter().any(|s| s.addr.socket_addr == m_addr())).unwrap_or(false);
+                let has = w.snap(V).map(|p| p.sessions.iter().any(|s| s.addr.socket_addr == m_addr())).unwrap_or(false);
+                let held = w.nodes[V].inbound.iter().any(|(a, _)| a.socket_addr == m_addr());
+                if had && held {
+                    w.count("undecodable_messages_with_a_held_request");
+                    if !has {
+                        let detail = format!("V dropped its session with M on receiving an authentic but undecodable message from it while its application holds a request of M ({:?})", ev);
+                        w.violate("C20", "each delivered request leads to exactly one response to the node address it came from", "held-request-unanswerable", detail.clone());
+                        w.violate("C14", "every request is answered", "held-request-unanswerable", detail);
+                    }
+                }
             }
         }
         // C02: a datagram presented from another source address than the one it was sent from is
@@ -594,7 +614,9 @@ pub fn configs(thorough: bool) -> Vec<(String, HCfg)> {
         // X loses its state between two requests of V: V re-keys its session in place (previous keys retained)
         // the crafted peer holds a session from one port and completes another handshake from a second
         // port of the same IP address
-        ("m-two-ports".to_string(), base(vec![], 1)),
+        ("m-two-ports".to_string(), base(vec![Req { from: 0, to: 8, body: Body::Ping, with_enr: false }], 1)),
+        // the crafted peer has a session and its first request is still held by V's application
+        ("m-session-request-held".to_string(), base(vec![], 1)),
         ("v-rekeys-x".to_string(), HCfg { allow_restart: vec![1], ..base(vec![Req { from: 0, to: 1, body: Body::Ping, with_enr: true }, Req { from: 0, to: 1, body: Body::Talk, with_enr: true }], 1) }),
     ];
     if thorough {
@@ -612,6 +634,7 @@ pub fn prefix_of(world: &str) -> Vec<Ev> {
         "m-session-v-dials-m" => vec![Ev::Ext(code(1, 1 << 8)), Ev::AnsWay(0, true), Ev::Deliver(0), Ev::Ext(code(2, 1 << 12 | 1 << 8)), Ev::Respond(0)],
         // M's session from its first port, and a PING of M under that session answered by V
         "m-two-ports" => vec![Ev::Ext(code(1, 1 << 8)), Ev::AnsWay(0, true), Ev::Deliver(0), Ev::Ext(code(2, 1 << 12 | 1 << 8)), Ev::Respond(0), Ev::Ext(code(8, 0)), Ev::Respond(0)],
+        "m-session-request-held" => vec![Ev::Ext(code(1, 1 << 8)), Ev::AnsWay(0, true), Ev::Deliver(0), Ev::Ext(code(2, 1 << 12 | 1 << 8))],
         _ => vec![],
     }
 }
@@ -705,8 +728,13 @@ pub fn explore(prop: &str, thorough: bool, budget_s: f64, k_max: u32) -> (mc::St
             if name == "m-two-ports" && prop != "C02" {
                 continue;
             }
+            if name == "m-session-request-held" && prop != "C20" && prop != "C14" {
+                continue;
+            }
             // worlds added for one mechanism each get the moves that mechanism needs (quick tier)
-            let d_world = if name == "m-two-ports" {
+            let d_world = if name == "m-session-request-held" {
+                Attack { handshake_records: vec![1], handshake_sigs: vec![0], replays: false, ways: false, msgs: true, halves: false, ..d.clone() }
+            } else if name == "m-two-ports" {
                 // hellos and a genuine handshake from the second port, M's recorded datagrams from there
                 Attack { handshake_records: vec![1], handshake_sigs: vec![0], replays: false, ways: false, msgs: true, halves: false, two_ports: true, ..d.clone() }
             } else if name == "v-rekeys-x" {
@@ -727,7 +755,9 @@ pub fn explore(prop: &str, thorough: bool, budget_s: f64, k_max: u32) -> (mc::St
             // only the clauses read for this property (C02 reads C01's attribution clause)
             let mut cfg = cfg.clone();
             cfg.focus = match prop {
-                "C02" => vec!["C02".to_string(), "C01".to_string()],
+                // (only the attribution clauses of C01: any other C01 clause would end the search at a
+                // state that C02 does not report, and hide what lies behind it)
+                "C02" => vec!["C02".to_string(), "C01:attributed-without-proof:Request".to_string(), "C01:attributed-without-proof:Response".to_string()],
                 "C01" => vec!["C01".to_string(), "C03:expired-challenge-accepted".to_string()],
                 _ => vec![prop.to_string()],
             };
